@@ -150,13 +150,25 @@ func finishNamespaces(cursor *InMemory, pos int) int {
 		return pos
 	}
 
-	declared := len(cursor.namespaces)
+	declared := cursor.namespaces
+	cursor.namespaces = make([]Cursor, 0, len(declared)+len(cursor.inherited))
+
+	// A declaration with an empty prefix and an empty value (xmlns="") takes
+	// the element out of the default namespace: it hides an inherited default
+	// namespace like any other declaration, but is not a namespace node.
+	for _, d := range declared {
+		ns := d.(*InMemory).node.(node.Namespace)
+
+		if ns.Prefix() != "" || ns.NamespaceValue() != "" {
+			cursor.namespaces = append(cursor.namespaces, d)
+		}
+	}
 
 	for _, i := range cursor.inherited {
 		ns := i.(*InMemory).node.(node.Namespace)
 		overridden := false
 
-		for _, d := range cursor.namespaces[:declared] {
+		for _, d := range declared {
 			if d.(*InMemory).node.(node.Namespace).Prefix() == ns.Prefix() {
 				overridden = true
 				break
